@@ -158,6 +158,14 @@ func (s *Store) Delete(bid bpv7.BundleID) error {
 			"bundle": bid,
 		}).Info("Store deletes BundleItem")
 
+		// The BundleItem is removed before its files. Being interrupted in between leaves unreferenced files behind
+		// instead of a BundleItem whose Bundle cannot be loaded anymore.
+		verifhook.At("storage.delete.before_index")
+
+		if err := s.bh.Delete(bi.Id, BundleItem{}); err != nil {
+			return err
+		}
+
 		for _, bp := range bi.Parts {
 			if err := bp.deleteBundle(); err != nil {
 				log.WithFields(log.Fields{
@@ -168,9 +176,6 @@ func (s *Store) Delete(bid bpv7.BundleID) error {
 			}
 			verifhook.At("storage.delete.after_part")
 		}
-		verifhook.At("storage.delete.before_index")
-
-		return s.bh.Delete(bi.Id, BundleItem{})
 	}
 
 	return nil
